@@ -254,6 +254,11 @@ class Interp:
                       % (kind, size, p.off, self.describe_obj(st, p.obj), lo, hi))
             detail += self.explain(st, [p.off, size, hi])
         self.oblige('bounds:' + kind, inst, ok1 and ok2, detail, self.describe_obj(st, p.obj))
+        if not (ok1 and ok2) and (st.cons.entails_le(p.off + 1, lo) or st.cons.entails_le(hi + 1, p.off + size)):
+            # definitely outside: the path ends here (undefined behaviour); continuing under the in-bounds assumption would
+            # make the state inconsistent, and an inconsistent state decides every later test both ways
+            st.bottom = True
+            return
         # continue under the assumption that the access was in bounds
         st.cons.add_le(lo, p.off)
         st.cons.add_le(p.off + size, hi)
@@ -1770,6 +1775,7 @@ class Interp:
 
     def try_peel(self, fn, L, st, frm, rets):
         header = L['header']
+        self.last_peel_error = None
         cur = [(st.fork(), frm)]
         saved_written = st.written
         all_exits = []
@@ -1790,8 +1796,9 @@ class Interp:
                 if len(nxt) > self.max_peel_states:
                     break
                 cur = nxt
-        except AnalysisBroken:
+        except AnalysisBroken as e:
             ok = False
+            self.last_peel_error = str(e)
         finally:
             self.recording -= 1
         if not ok:
